@@ -4,7 +4,7 @@
 (* C18, C20): the outputs of total / report / tags / today / print / json   *)
 (* recorded from the real CLI are judged against KEval.                     *)
 (***************************************************************************)
-EXTENDS KEval, KPrint, Json, IOUtils
+EXTENDS KWarn, KPrint, Json, IOUtils
 
 VARIABLES l, sh
 Trace == ndJsonDeserialize(IOEnv.KV_TRACE)
@@ -29,7 +29,8 @@ AllRules == {"C02.NoPanic", "C02.Json", "C02.Total", "C02.TotalHM", "C02.Now", "
              "C14.NoPanic", "C14.JsonTags", "C14.Totals", "C14.Match",
              "C17.Now", "C17.TodayNow",
              "C18.NoPanic", "C18.Strip", "C18.Plain", "C18.Widths",
-             "C20.NoPanic", "C20.WellFormed", "C20.Record", "C20.Arithmetic"}
+             "C20.NoPanic", "C20.WellFormed", "C20.Record", "C20.Arithmetic",
+             "X.Warn"}
 RuleNames == {r \in AllRules : \E p \in Prefixes : StartsWith(r, p)}
 
 RunsWith(o, prefix) == SelectSeq(o.runs, LAMBDA r : StartsWith(r.id, prefix))
@@ -181,6 +182,15 @@ Holds(r, ev, PD) ==
         noRunPanic == \A i \in 1..Len(o.runs) : o.runs[i].panic = ""
     IN
     CASE r \in {"C02.NoPanic", "C12.NoPanic", "C13.NoPanic", "C14.NoPanic", "C18.NoPanic", "C20.NoPanic"} -> live /\ noRunPanic
+      (* beyond the listed properties (drift metric, never a verdict): the warnings printed after the records *)
+      [] r = "X.Warn" -> live =>
+            \A i \in 1..Len(o.runs) :
+                LET run == o.runs[i] IN
+                StartsWith(run.id, "warn:") =>
+                    LET got == [k \in 1..Len(run.warn) |-> <<ParseDate(run.warn[k].date).ord, run.warn[k].msg>>]
+                        off == IF run.id = "warn:cfg" THEN {"UNCLOSED_OPEN_RANGE", "OVERLAPPING_RANGES"} ELSE {}
+                        ex == Warnings(R, now, off)
+                    IN  run.code = 0 /\ (IF DistinctDates(R) THEN got = ex ELSE BagEq(got, ex))
       [] r = "C02.Json" -> live /\ HasRun(o, "json") =>
             LET j == RunById(o, "json") IN j.code = 0 /\ j.json.wellformed /\ JsonRecordsOK(j.json.records, Recs(PD))
       [] r = "C02.Total" -> live /\ HasRun(o, "total:plain") =>
